@@ -25,7 +25,7 @@ func seedS2() []Step {
 func seedS3() []Step { return append(seedS2(), Run("branch", "-r", "trunk")) }
 func seedS4() []Step { return append(seedS1(), Run("rm", "a", "d/x"), Run("commit", "-m", "empty")) }
 func seedS5() []Step {
-	return append(seedS1(), Write("a", "a dirty\n"), Rmdir("d"), Write("u", "untracked\n"), Write("e/f", "untracked nested\n"))
+	return append(seedS1(), Write("a", "a dirty\n"), Rmdir("d"), Write("u", "untracked\n"), Write("e/q", "untracked nested\n"))
 }
 
 func allSeeds() []Seed {
